@@ -1,13 +1,11 @@
 (* C15 property theorems: statements only, each closed by `exact`.
 
    The model is parametrised by `cfg` = which repairs the code contains.  `cfg_now` is /repo as it
-   stands: the six defects of the snapshot 75ee8d3 are repaired (1e4dc27, c4fcf7f, ab776e6, 1799c30,
-   1298d8e, 1b618eb).  `cfg_snapshot` / `cfg_round1` are historical trees.
+   stands: the seven defects of the snapshot 75ee8d3 are repaired (1e4dc27, c4fcf7f, ab776e6, 1799c30,
+   1298d8e, 1b618eb, 9d1b558).  `cfg_snapshot` / `cfg_round1` / `cfg_round2` are historical trees.
    Statements named `_hist_...` / `..._legacy_refuted` (refuted / partial for drain = false or fix flags
    false) describe those historical trees and are kept so that a regression of a repair has a proved
-   description; everything else describes /repo as it stands or any cfg.  One statement about /repo
-   today is refuted: `C15_free_right_refuted` (known finding free-sum-right-of-combined; the proposed
-   repair is the flag fix_free_right, `C15_flatten_all_repaired` is the positive theorem for it). *)
+   description; everything else describes /repo as it stands or any cfg. *)
 From Coq Require Import ZArith List Bool Arith.
 From PAFC15 Require Import Model Proofs1 Proofs2 Proofs3 Witness.
 Import ListNotations.
@@ -45,15 +43,19 @@ Theorem C15_single_plus_free_raises : forall (c : cfg) (j : nat) (h : bool) (e :
   eval c (Add (Leaf j h) (Free e)) = VErr.
 Proof. exact single_plus_free_raises. Qed.
 
-(* ... but (a + b) + (c + d).with_free_parameters(p) is accepted silently by /repo today (known finding) *)
-Theorem C15_free_right_refuted : exists e : expr, eval cfg_now e <> spec_struct e.
-Proof. exact free_right_refuted. Qed.
+(* /repo today: the structure is the specified one for EVERY expression, with_free_parameters anywhere:
+   sums in the order written, with_free_parameters re-wrapping a finished sum, and an error for anything
+   that adds to a free-parameter sum (all four orders since 9d1b558) or frees a single analysis *)
+Theorem C15_flatten_all : forall e : expr, eval cfg_now e = spec_struct e.
+Proof. exact flatten_all_now. Qed.
 
-(* with the proposed repair (combined + free-parameter sum raises too) the structure is the specified
-   one for EVERY expression, with_free_parameters anywhere: kept switched off (cfg_fixed, not cfg_now) *)
-Theorem C15_flatten_all_repaired : forall (c : cfg) (e : expr),
+Theorem C15_flatten_all_any_cfg : forall (c : cfg) (e : expr),
   fix_order c = true -> fix_new c = true -> fix_free_right c = true -> eval c e = spec_struct e.
 Proof. exact flatten_all. Qed.
+
+(* before 9d1b558 (a + b) + (c + d).with_free_parameters(p) was accepted silently *)
+Theorem C15_hist_free_right_legacy_refuted : exists e : expr, eval cfg_round2 e <> spec_struct e.
+Proof. exact free_right_legacy_refuted. Qed.
 
 Theorem C15_hist_flatten_order_refuted :
   exists e : expr, nofree e = true /\ eval (mkCfg false true true true true true true) e <> spec_struct e.
